@@ -453,6 +453,30 @@ def r6(ctx):
     ctx.ob(sp.qual, "relationship-skipped-only-when-incomplete", bad is None, sp.loc(lp), "a relationship is passed over only if an individual is unknown or not among the samples to phase" if bad is None else "a relationship of the PED file can be dropped for another reason", cfg.describe_path(bad) if bad else None)
 
 
+def r7(ctx):
+    """A variant phased from the genotypes alone (no read) is still a phase set of its own: the component map must keep every
+    accessible position, singletons included (C03.R2 decides that), and every family of a processed chromosome must reach the
+    solver -- no family is passed over, however few variants it has left."""
+    from rules import c03
+
+    c03.r2(ctx)
+    run = ctx.func(PH + ".run_whatshap")
+    cfg = ctx.cfg(run)
+    fl = [n for n in walk_function(run.node) if isinstance(n, ast.For) and "families" in u(n.iter) and isinstance(n.target, ast.Tuple)]
+    ok, where, why, wit = None, run.loc(), "family loop of run_whatshap not found", None
+    if len(fl) == 1:
+        gs = {cfg.node_containing(c) for c in ctx.prog.calls_in(run.node) if isinstance(c.func, ast.Attribute) and c.func.attr == "get_super_reads" and any(c is x for x in ast.walk(fl[0]))}
+        where = run.loc(fl[0])
+        if gs:
+            probs = util.check_loop_conservation(cfg, fl[0], lambda n: n in gs)
+            ok = not probs
+            why = "every family of a processed chromosome reaches the solver and its super reads" if ok else ("a family can be passed over without being phased (%s): its variants, also those that could be phased from the genotypes alone, are written unphased" % ("skipped" if probs[0][0] == "skip" else "the loop is left early"))
+            wit = cfg.describe_path(probs[0][1]) if probs else None
+        else:
+            why = "get_super_reads() call not found in the family loop"
+    ctx.ob(run.qual, "every-family-reaches-the-solver", ok, where, why, wit)
+
+
 RULES = [
     ("C05.R1", "role flow father|mother from PED file to GT across three languages", r1),
     ("C05.R2", "missing genotypes and Mendelian conflicts are excluded (set algebra)", r2),
@@ -460,7 +484,8 @@ RULES = [
     ("C05.R4", "transmission bit layout agrees between C++ and Python", r4),
     ("C05.R5", "GT is normalised whether or not the input call was phased", r5),
     ("C05.R6", "every PED relationship among the samples becomes a trio", r6),
+    ("C05.R7", "a variant phased without reads keeps its own phase set: complete component map, no family passed over", r7),
 ]
 # instance floors: about 60% of the instances confirmed by hand on the reference tree -- a rule that suddenly matches far fewer
 # sites fails the run (exit 2); a clean-up that merges two sites into one does not
-FLOORS = {"C05.R1": 9, "C05.R2": 8, "C05.R3": 2, "C05.R4": 4, "C05.R5": 1, "C05.R6": 1}
+FLOORS = {"C05.R1": 9, "C05.R2": 8, "C05.R3": 2, "C05.R4": 4, "C05.R5": 1, "C05.R6": 1, "C05.R7": 5}
